@@ -17,7 +17,7 @@ KNOWN = core.load_known(ID)
 F13_KEY = 'probes-not-apart:zero-width-then-x0'
 RULE = (
     "Hypothesis: 1..4 probes (k>=3 in about 40% of the cases) with different channel counts "
-    "(2-6), template counts (2-4) and waveform contents, permuted channel maps (also into a larger "
+    "(2-6), template counts (2-4, in 1 case of 8 a probe with 33-70 templates) and waveform contents, permuted channel maps (also into a larger "
     "raw file), non-negative probe coordinates (generic / grid / single column), index tables of "
     "int32 and uint32 dtype mixed between probes, whitening / inverse whitening / similarity "
     "matrices present in all or only some probes. Oracle: channels of probe k occupy the index "
@@ -30,8 +30,8 @@ RULE = (
     "Toff_k; each of whitening / inverse / similarity, when every probe has it, is written and "
     "equals the block-diagonal arrangement of the per-probe matrices; params.py keeps sample_rate "
     "and declares the summed n_channels_dat. The known finding F13 (zero-width probe followed by "
-    "a probe starting at x == 0) is excluded by construction and counted. Non-trivial: >=3 probes "
-    "or unequal channel/template counts.")
+    "a probe starting at x == 0) is excluded by construction and counted. Half of the cases merge the same probes a second time in the same "
+    "process and verify again. Non-trivial: >=3 probes or unequal channel/template counts.")
 ASSUMPTIONS = ['merging requires amplitudes.npy, pc_feature_ind.npy, template_feature_ind.npy and '
                'spike_clusters.npy in every probe', 'index tables have the same width in every '
                'probe (otherwise they cannot be stacked)']
@@ -39,7 +39,9 @@ ASSUMPTIONS = ['merging requires amplitudes.npy, pc_feature_ind.npy, template_fe
 
 @st.composite
 def _case(draw):
-    c = draw(G.merge_case(exclude_f13=F13_KEY in KNOWN))
+    c = draw(G.merge_case(exclude_f13=F13_KEY in KNOWN, big_templates=True))
+    # half of the cases: the same probes are merged a second time in the same process
+    c['again'] = draw(st.booleans())
     return c
 
 
@@ -60,110 +62,115 @@ def _blockdiag(mats):
     return out
 
 
+def _verify(Ts, out, info):
+    """All C12 clauses for the files one merge of Ts wrote into out."""
+    K = len(Ts)
+    ncs = [T.spec['nc'] for T in Ts]
+    nts = [T.spec['nt'] for T in Ts]
+    C = [0] + np.cumsum(ncs).tolist()
+    # -- channels ------------------------------------------------------------------------
+    cm = np.load(out / 'channel_map.npy')
+    cpb = np.load(out / 'channel_probe.npy')
+    pos = np.load(out / 'channel_positions.npy')
+    require(cm.shape == (C[-1],) and cpb.shape == (C[-1],) and pos.shape == (C[-1], 2),
+            'merged channel arrays do not have sum(nc) rows', key='channel-count',
+            observed=(cm.shape, cpb.shape, pos.shape), expected=C[-1])
+    xr = []
+    for k, T in enumerate(Ts):
+        blk = slice(C[k], C[k + 1])
+        diff = cm[blk].astype(np.int64) - T.chmap.astype(np.int64)
+        require(np.all(diff == diff[0]), 'channel_map block of probe %d is not the input map '
+                'plus a constant' % k, key='channel-map-block', observed=cm[blk],
+                expected=T.chmap)
+        require(np.all(cpb[blk] == k), 'channel_probe of probe %d' % k, key='channel-probe',
+                observed=cpb, expected=k)
+        dx = pos[blk, 0] - T.pos[:, 0]
+        require(np.allclose(dx, dx[0], rtol=0, atol=1e-9) and
+                np.array_equal(pos[blk, 1], T.pos[:, 1]),
+                'positions of probe %d are not the input geometry translated along x' % k,
+                key='positions-geometry', observed=pos[blk], expected=T.pos)
+        xr.append((float(pos[blk, 0].min()), float(pos[blk, 0].max())))
+    # probes are laid out left to right, so consecutive pairs decide
+    for i in range(K - 1):
+        apart = xr[i][1] < xr[i + 1][0]
+        # the recorded finding F13 is exactly: zero x-extent followed by a probe starting at 0
+        f13 = G.needs_f13_shift(Ts[i].pos.tolist(), Ts[i + 1].pos.tolist())
+        require(apart, 'x translation does not keep probes %d and %d apart' % (i, i + 1),
+                key=F13_KEY if f13 else 'probes-not-apart', observed=xr)
+    # -- templates -----------------------------------------------------------------------
+    tp = np.load(out / 'templates.npy')
+    nsw = Ts[0].spec['nsw']
+    require(tp.shape == (sum(nts), nsw, C[-1]), 'templates.npy shape', key='templates-shape',
+            observed=tp.shape, expected=(sum(nts), nsw, C[-1]))
+    order = G.expected_order(Ts)
+    mt = np.load(out / 'spike_templates.npy')
+    toff = infer_offsets(order, Ts, mt, 'spike_templates', 'spike_templates')
+    info['toff'] = toff
+    for k, T in enumerate(Ts):
+        for t in sorted(set(int(x) for x in T.spike_templates)):
+            row = t + toff[k]
+            require(row < tp.shape[0], 'template row out of range', key='templates-row',
+                    observed=row)
+            exp = np.zeros((nsw, C[-1]), dtype=tp.dtype)
+            exp[:, C[k]:C[k + 1]] = T.templates[t]
+            same_array('template %d of probe %d at its offset index %d (own channel block, '
+                       'zeros elsewhere)' % (t, k, row), tp[row], exp, key='templates-block',
+                       dtype=False)
+    # -- index tables ----------------------------------------------------------------------
+    pfi = np.load(out / 'pc_feature_ind.npy')
+    tfi = np.load(out / 'template_feature_ind.npy')
+    R = [0] + np.cumsum(nts).tolist()
+    require(pfi.shape[0] == R[-1] and tfi.shape[0] == R[-1], 'index tables row count',
+            key='ind-rows', observed=(pfi.shape, tfi.shape), expected=R[-1])
+    for k, T in enumerate(Ts):
+        rows = slice(R[k], R[k + 1])
+        same_array('pc_feature_ind rows of probe %d == input + cumulative channel count' % k,
+                   pfi[rows].astype(np.int64), T.pcf_ind.astype(np.int64) + C[k],
+                   key='pc-feature-ind')
+        same_array('template_feature_ind rows of probe %d == input + template offset' % k,
+                   tfi[rows].astype(np.int64), T.tf_ind.astype(np.int64) + toff[k],
+                   key='template-feature-ind')
+    # -- matrices ----------------------------------------------------------------------------
+    for fn, attr in (('whitening_mat.npy', 'wm'), ('whitening_mat_inv.npy', 'wmi_file'),
+                     ('similar_templates.npy', 'sim')):
+        mats = [getattr(T, attr) for T in Ts]
+        p = out / fn
+        if all(m is not None for m in mats):
+            require(p.exists(), '%s not written although every probe has it' % fn,
+                    key='matrix-missing')
+            same_array('%s is block-diagonal with the per-probe matrices' % fn, np.load(p),
+                       _blockdiag(mats), key='matrix-blockdiag', dtype=False)
+            info['matrix_all'] = True
+        elif any(m is not None for m in mats):
+            info['matrix_some'] = True
+            if p.exists():
+                got = np.load(p)
+                # computed by the merged model when loading is allowed for the inverse only
+                if fn != 'whitening_mat_inv.npy':
+                    raise Violation('%s written although a probe lacks it' % fn,
+                                    key='matrix-partial', observed=got.shape)
+    # -- params -----------------------------------------------------------------------------
+    prm = must_return('read merged params.py', read_python, out / 'params.py')
+    require(float(prm['sample_rate']) == float(Ts[0].rate), 'merged sample_rate',
+            key='params-rate', observed=prm.get('sample_rate'), expected=Ts[0].rate)
+    require(int(prm['n_channels_dat']) == sum(T.spec['ncd'] for T in Ts),
+            'merged n_channels_dat is not the sum', key='params-ncd',
+            observed=prm.get('n_channels_dat'), expected=sum(T.spec['ncd'] for T in Ts))
+
+
 def check(case):
     if core.RUN is not None:
         core.RUN.excluded_known += case.get('f13_excluded', 0)
     info = {}
     with env.scratch() as d:
         Ts = G.build_probes(case, d)
-        out = d / 'merged'
-        merger, model = G.run_merge(Ts, out, must_return)
-        try:
-            model.close()
-        except Exception:
-            pass
-        K = len(Ts)
-        ncs = [T.spec['nc'] for T in Ts]
-        nts = [T.spec['nt'] for T in Ts]
-        C = [0] + np.cumsum(ncs).tolist()
-        # -- channels ------------------------------------------------------------------------
-        cm = np.load(out / 'channel_map.npy')
-        cpb = np.load(out / 'channel_probe.npy')
-        pos = np.load(out / 'channel_positions.npy')
-        require(cm.shape == (C[-1],) and cpb.shape == (C[-1],) and pos.shape == (C[-1], 2),
-                'merged channel arrays do not have sum(nc) rows', key='channel-count',
-                observed=(cm.shape, cpb.shape, pos.shape), expected=C[-1])
-        xr = []
-        for k, T in enumerate(Ts):
-            blk = slice(C[k], C[k + 1])
-            diff = cm[blk].astype(np.int64) - T.chmap.astype(np.int64)
-            require(np.all(diff == diff[0]), 'channel_map block of probe %d is not the input map '
-                    'plus a constant' % k, key='channel-map-block', observed=cm[blk],
-                    expected=T.chmap)
-            require(np.all(cpb[blk] == k), 'channel_probe of probe %d' % k, key='channel-probe',
-                    observed=cpb, expected=k)
-            dx = pos[blk, 0] - T.pos[:, 0]
-            require(np.allclose(dx, dx[0], rtol=0, atol=1e-9) and
-                    np.array_equal(pos[blk, 1], T.pos[:, 1]),
-                    'positions of probe %d are not the input geometry translated along x' % k,
-                    key='positions-geometry', observed=pos[blk], expected=T.pos)
-            xr.append((float(pos[blk, 0].min()), float(pos[blk, 0].max())))
-        # probes are laid out left to right, so consecutive pairs decide
-        for i in range(K - 1):
-            apart = xr[i][1] < xr[i + 1][0]
-            # the recorded finding F13 is exactly: zero x-extent followed by a probe starting at 0
-            f13 = G.needs_f13_shift(Ts[i].pos.tolist(), Ts[i + 1].pos.tolist())
-            require(apart, 'x translation does not keep probes %d and %d apart' % (i, i + 1),
-                    key=F13_KEY if f13 else 'probes-not-apart', observed=xr)
-        # -- templates -----------------------------------------------------------------------
-        tp = np.load(out / 'templates.npy')
-        nsw = Ts[0].spec['nsw']
-        require(tp.shape == (sum(nts), nsw, C[-1]), 'templates.npy shape', key='templates-shape',
-                observed=tp.shape, expected=(sum(nts), nsw, C[-1]))
-        order = G.expected_order(Ts)
-        mt = np.load(out / 'spike_templates.npy')
-        toff = infer_offsets(order, Ts, mt, 'spike_templates', 'spike_templates')
-        info['toff'] = toff
-        for k, T in enumerate(Ts):
-            for t in sorted(set(int(x) for x in T.spike_templates)):
-                row = t + toff[k]
-                require(row < tp.shape[0], 'template row out of range', key='templates-row',
-                        observed=row)
-                exp = np.zeros((nsw, C[-1]), dtype=tp.dtype)
-                exp[:, C[k]:C[k + 1]] = T.templates[t]
-                same_array('template %d of probe %d at its offset index %d (own channel block, '
-                           'zeros elsewhere)' % (t, k, row), tp[row], exp, key='templates-block',
-                           dtype=False)
-        # -- index tables ----------------------------------------------------------------------
-        pfi = np.load(out / 'pc_feature_ind.npy')
-        tfi = np.load(out / 'template_feature_ind.npy')
-        R = [0] + np.cumsum(nts).tolist()
-        require(pfi.shape[0] == R[-1] and tfi.shape[0] == R[-1], 'index tables row count',
-                key='ind-rows', observed=(pfi.shape, tfi.shape), expected=R[-1])
-        for k, T in enumerate(Ts):
-            rows = slice(R[k], R[k + 1])
-            same_array('pc_feature_ind rows of probe %d == input + cumulative channel count' % k,
-                       pfi[rows].astype(np.int64), T.pcf_ind.astype(np.int64) + C[k],
-                       key='pc-feature-ind')
-            same_array('template_feature_ind rows of probe %d == input + template offset' % k,
-                       tfi[rows].astype(np.int64), T.tf_ind.astype(np.int64) + toff[k],
-                       key='template-feature-ind')
-        # -- matrices ----------------------------------------------------------------------------
-        for fn, attr in (('whitening_mat.npy', 'wm'), ('whitening_mat_inv.npy', 'wmi_file'),
-                         ('similar_templates.npy', 'sim')):
-            mats = [getattr(T, attr) for T in Ts]
-            p = out / fn
-            if all(m is not None for m in mats):
-                require(p.exists(), '%s not written although every probe has it' % fn,
-                        key='matrix-missing')
-                same_array('%s is block-diagonal with the per-probe matrices' % fn, np.load(p),
-                           _blockdiag(mats), key='matrix-blockdiag', dtype=False)
-                info['matrix_all'] = True
-            elif any(m is not None for m in mats):
-                info['matrix_some'] = True
-                if p.exists():
-                    got = np.load(p)
-                    # computed by the merged model when loading is allowed for the inverse only
-                    if fn != 'whitening_mat_inv.npy':
-                        raise Violation('%s written although a probe lacks it' % fn,
-                                        key='matrix-partial', observed=got.shape)
-        # -- params -----------------------------------------------------------------------------
-        prm = must_return('read merged params.py', read_python, out / 'params.py')
-        require(float(prm['sample_rate']) == float(Ts[0].rate), 'merged sample_rate',
-                key='params-rate', observed=prm.get('sample_rate'), expected=Ts[0].rate)
-        require(int(prm['n_channels_dat']) == sum(T.spec['ncd'] for T in Ts),
-                'merged n_channels_dat is not the sum', key='params-ncd',
-                observed=prm.get('n_channels_dat'), expected=sum(T.spec['ncd'] for T in Ts))
+        for out in [d / 'merged'] + ([d / 'merged2'] if case.get('again') else []):
+            merger, model = G.run_merge(Ts, out, must_return)
+            try:
+                model.close()
+            except Exception:
+                pass
+            _verify(Ts, out, info)
     return info
 
 
@@ -191,4 +198,8 @@ def classify(case, info):
         labels.append('non-last-probe-highest-template-unused')
     if case.get('f13_excluded'):
         labels.append('f13-shape-excluded')
+    if case.get('again'):
+        labels.append('second-merge-in-process')
+    if any(p['nt'] > 32 for p in ps):
+        labels.append('probe-with->32-templates')
     return labels, nt
